@@ -5,3 +5,4 @@ pub mod payload;
 pub mod pinput;
 pub mod smlfile;
 pub mod stream;
+pub mod tree;
